@@ -265,14 +265,30 @@ def run_documents(case, rec):
     enc(spec, 0)
     text = json.dumps({"meta": {"$generator": "nutree/0.9.1", "$format_version": "1.0"}, "nodes": nodes})
     cls = TypedTree if typed else Tree
-    rec.evals += 1
-    try:
-        t = cls.load(io.StringIO(text), mapper=lambda parent, data: data["str"])
-        rec.fail("load:duplicate-siblings-accepted", {"spec": spec, "count": t.count})
-    except UniqueConstraintError:
-        pass
-    except Exception as e:  # noqa: BLE001
-        rec.fail(f"load:other-error:{type(e).__name__}", repr(e)[:200])
+    # the document as a stream, as a plain file (str / Path) and as a zip archive (str / Path)
+    import os
+    import tempfile
+    import zipfile
+    from pathlib import Path
+
+    with tempfile.TemporaryDirectory(prefix="verif_c03_") as tmp:
+        plain = os.path.join(tmp, "doc.nutree")
+        with open(plain, "w", encoding="utf8") as fp:
+            fp.write(text)
+        zipped = os.path.join(tmp, "doc_zip.nutree")
+        with zipfile.ZipFile(zipped, "w", compression=zipfile.ZIP_DEFLATED) as zf:
+            zf.writestr("doc.json", text)
+        targets = [("stream", lambda: io.StringIO(text)), ("path", lambda: plain), ("Path", lambda: Path(plain)),
+                   ("zip-path", lambda: zipped), ("zip-Path", lambda: Path(zipped))]
+        for tname, mk in targets:
+            rec.evals += 1
+            try:
+                t = cls.load(mk(), mapper=lambda parent, data: data["str"])
+                rec.fail(f"load({tname}):duplicate-siblings-accepted", {"spec": spec, "count": t.count})
+            except UniqueConstraintError:
+                pass
+            except Exception as e:  # noqa: BLE001
+                rec.fail(f"load({tname}):other-error:{type(e).__name__}", repr(e)[:200])
 
 
 def hyp_histories(tier):
